@@ -7,8 +7,8 @@ hook_commits = ["d83df2a"]
 
 # property -> (ready?, technique, level text, level note, design_ref)
 T = {}
-def reg(p, technique, text, note, ref):
-    T[p] = dict(technique=technique, text=text, note=note, ref=ref)
+def reg(p, technique, text, note, ref, category="model_checking"):
+    T[p] = dict(technique=technique, text=text, note=note, ref=ref, category=category)
 
 exec(open(V + "/bin/manifest_table.py").read())
 
@@ -23,7 +23,7 @@ for p in sorted(props):
             "evidence_file": "/verif/evidence/%s.json" % p,
             "replay_cmd_template": "bin/check replay {path}",
             "engine": "tlc",
-            "level_claimed": {"category": "model_checking", "text": t["text"], "design_ref": t["ref"]},
+            "level_claimed": {"category": t.get("category", "model_checking"), "text": t["text"], "design_ref": t["ref"]},
             "level_note": t["note"],
             "technique": t["technique"],
         })
